@@ -12,7 +12,8 @@ NewClauses(r) ==
      <<"size-cap", r.out.k = "ret" => Len(r.out.data) <= MAX_FILTER_BYTES>>,
      <<"hash-count-cap", r.out.k = "ret" => (r.out.nk <= MAX_HASH_FUNCS /\ r.out.nk >= 0)>>,
      <<"starts-empty", r.out.k = "ret" => AllZero(r.out.data)>>,
-     <<"tweak-flags-kept", r.out.k = "ret" => (r.out.tweak = r.in.tweak /\ r.out.flags = r.in.flags)>> >>
+     <<"tweak-flags-kept", r.out.k = "ret" => (r.out.tweak = r.in.tweak /\ r.out.flags = r.in.flags)>>,
+     <<"within-size-constraints", r.out.k = "ret" => r.out.within>> >>
 ArriveClauses(r) ==
   LET b == r.in.bytes n == r.in.n off == Len(CompactSizeB(n)) IN
   << <<"deserialised", r.out.k = "ret">>,
@@ -20,7 +21,10 @@ ArriveClauses(r) ==
           /\ r.out.data = SubSeq(b, off + 1, off + n)
           /\ LE(r.out.nk, 4) = SubSeq(b, off + n + 1, off + n + 4)
           /\ r.out.tweak = SubSeq(b, off + n + 5, off + n + 8)
-          /\ r.out.flags = b[off + n + 9]>> >>
+          /\ r.out.flags = b[off + n + 9]>>,
+     \* the protocol maxima as a predicate on what arrived: at most 36,000 bytes and at most 50 functions
+     <<"within-size-constraints", r.out.k = "ret" => LET kb == SubSeq(b, off + n + 1, off + n + 4) IN       \* (the count is compared on its wire bytes: it can exceed TLC's integers)
+          r.out.within = (n <= MAX_FILTER_BYTES /\ kb[2] = 0 /\ kb[3] = 0 /\ kb[4] = 0 /\ kb[1] <= MAX_HASH_FUNCS)>> >>
 InsertClauses(r) ==
   LET e == FInsert(f, r.in.e) IN
   << <<"insert-does-not-fail", r.out.k = "ret">>,
